@@ -881,9 +881,13 @@ fn angle_axis_float<T: Fl>(sub: &mut Sub, cfg: &Config, idx: u64) {
         0 => (0.0, [1.0, 0.0, 0.0]),
         1 => (2.0 * PI, [0.0, 1.0, 0.0]), // w = -1 after rounding
         _ => {
-            let a = match rng.below(6) {
+            let a = match rng.below(8) {
                 0 => rng.f64_in(-0.2, 0.2),
                 1 => rng.f64_in(PI - 0.1, PI + 0.1) * if rng.bool() { 1.0 } else { -1.0 },
+                // small rotations (what a per-frame delta orientation is): 1e-1 .. 1e-7 rad, either sign,
+                // and the same distance from a full turn (w close to -1)
+                2 | 3 => 10f64.powf(rng.f64_in(-7.0, -1.0)) * if rng.bool() { 1.0 } else { -1.0 },
+                4 => (2.0 * PI - 10f64.powf(rng.f64_in(-7.0, -1.0))) * if rng.bool() { 1.0 } else { -1.0 },
                 _ => rng.f64_in(-2.0 * PI, 2.0 * PI),
             };
             let n = loop {
@@ -913,19 +917,17 @@ fn angle_axis_float<T: Fl>(sub: &mut Sub, cfg: &Config, idx: u64) {
     // |w| exactly 1 (vector part zero or lost in the rounding of w): the rotation is the identity,
     // any finite unit axis is a correct answer
     let exact_identity = w.abs() == 1.0 && qr[0].abs() <= T::EPS && qr[1].abs() <= T::EPS && qr[2].abs() <= T::EPS;
-    let omw2 = 1.0 - w * w;
-    // conditioning of acos and of the division by sqrt(1-w^2): errors eps/(1-w^2) on the axis
-    let tol_axis = 64.0 * T::EPS / omw2.max(1e-300);
-    if !exact_identity && (w.abs() > 1.0 - 1e-6 || tol_axis > 1e-2) {
-        sub.saw("Quaternion::into_angle_axis");
-        sub.inconclusive("ill_conditioned:w_close_to_one");
-        return;
-    }
+    // The map q -> rotation is well conditioned everywhere (an error d in q moves the rotation by O(d)),
+    // and so is the extraction problem: angle = 2 atan2(|xyz|, w), axis = xyz / |xyz|.  The tolerance
+    // is therefore a plain multiple of eps; a formula that loses accuracy for small angles
+    // (acos(w), sqrt(1 - w^2) near |w| = 1) is an unstable algorithm, not an ill-conditioned input.
+    // Only when the vector part is below eps is the axis arbitrary: then the rotation differs from the
+    // identity by less than 2 eps and any unit axis with a matching tiny angle is right.
     let (angle, axis) = g!(sub, cfg, idx, T::TY, desc, "Quaternion::into_angle_axis", q.into_angle_axis());
     let (angle, axis) = (angle.to64(), [axis.x.to64(), axis.y.to64(), axis.z.to64()]);
     let mut fails: Fails = Vec::new();
     let api = "Quaternion::into_angle_axis";
-    let tol = if exact_identity { 64.0 * T::EPS * 8.0 } else { tol_axis.max(64.0 * T::EPS) * 8.0 };
+    let tol = 64.0 * T::EPS * 8.0;
     let al = len64(axis);
     if !((al - 1.0).abs() <= tol) {
         fails.push((api.into(), "axis_not_unit", format!("angle = {}, axis = {:?}, |axis| = {}, tolerance {:e}", angle, axis, al, tol)));
@@ -1035,12 +1037,11 @@ fn rotation_3d_float<T: Fl>(sub: &mut Sub, cfg: &Config, idx: u64) {
             fails.push(("Quaternion::rotation_x".into(), "differs_from_rodrigues", format!("rotation_x({}) = {:?}, error {:e}", angle, qx, e)));
         }
     }
-    // back through into_angle_axis (well-conditioned rotations only)
-    let w = qr[3];
-    if w.abs() <= 1.0 - 1e-4 {
+    // back through into_angle_axis (every rotation: the extraction is well conditioned, see angle_axis_float)
+    {
         let (a2, ax2) = g!(sub, cfg, idx, T::TY, desc, "Quaternion::into_angle_axis", q.into_angle_axis());
         let (a2, ax2) = (a2.to64(), [ax2.x.to64(), ax2.y.to64(), ax2.z.to64()]);
-        let tol2 = 8.0 * (64.0 * T::EPS / (1.0 - w * w)).max(64.0 * T::EPS);
+        let tol2 = 8.0 * 64.0 * T::EPS;
         let back = rod64(a2, ax2);
         let e = dist(&back, &exp);
         if !(e <= 2.0 * tol2 + tol) {
@@ -1130,7 +1131,7 @@ fn main() {
         }));
     }
     {
-        let proto = Sub::new("angle_axis_float", "into_angle_axis on f32 and f64 for unit quaternions (n sin(a/2), cos(a/2)) built by the harness in f64 and rounded, a in (-2pi,2pi) (uniform, near 0, near +-pi), random unit n, plus exact +-identity. Oracle: returned axis is unit and Rodrigues' formula for the returned (angle, axis) gives the textbook rotation matrix of q, within 8 * max(64 eps, 64 eps/(1-w^2)); |w| within 1e-6 of 1 (or tolerance > 1e-2) is ill_conditioned unless q is exactly +-identity; non-trivial = not +-identity")
+        let proto = Sub::new("angle_axis_float", "into_angle_axis on f32 and f64 for unit quaternions (n sin(a/2), cos(a/2)) built by the harness in f64 and rounded, a in (-2pi,2pi) (uniform, near 0, near +-pi), random unit n, plus exact +-identity. Oracle: returned axis is unit and Rodrigues' formula for the returned (angle, axis) gives the textbook rotation matrix of q, within 512 eps everywhere (the extraction problem is well conditioned: angle = 2 atan2(|xyz|, w)); a in (-2pi,2pi) also log-uniform 1e-7..1e-1 from 0 and from a full turn (small delta rotations); non-trivial = not +-identity")
             .with_floor(n)
             .require(&["Quaternion::into_angle_axis"]);
         rep.push(run_cases(&cfg, proto, n, |s, i| {
@@ -1139,7 +1140,7 @@ fn main() {
         }));
     }
     {
-        let proto = Sub::new("rotation_3d_float", "vek's own angle-axis constructor on f32 and f64: axes on a coordinate axis with either sign / in a coordinate plane / generic, any length (powers of two, 0.05..20); angles 0, tiny (1e-9..1e-2), multiples of pi/2, near +-pi, uniform in (-2pi,2pi). Oracle: the textbook matrix of the returned quaternion equals Rodrigues' formula for (angle, axis/|axis|) within 64 eps; q * v (vek's Mul<Vec3>) equals that matrix applied to v; rotation_x agrees on +x; into_angle_axis of the result describes the same rotation (only for |w| <= 1 - 1e-4). non-trivial = angle != 0; distinct by hash of type, angle, axis")
+        let proto = Sub::new("rotation_3d_float", "vek's own angle-axis constructor on f32 and f64: axes on a coordinate axis with either sign / in a coordinate plane / generic, any length (powers of two, 0.05..20); angles 0, tiny (1e-9..1e-2), multiples of pi/2, near +-pi, uniform in (-2pi,2pi). Oracle: the textbook matrix of the returned quaternion equals Rodrigues' formula for (angle, axis/|axis|) within 64 eps; q * v (vek's Mul<Vec3>) equals that matrix applied to v; rotation_x agrees on +x; into_angle_axis of the result describes the same rotation (within 1024 eps, tiny angles included). non-trivial = angle != 0; distinct by hash of type, angle, axis")
             .with_floor(n)
             .require(&["Quaternion::rotation_3d", "Quaternion::into_angle_axis", "Mul<Vec3> for Quaternion"]);
         rep.push(run_cases(&cfg, proto, n, |s, i| {
